@@ -142,7 +142,10 @@ func create(ps *ProgSpec, mode ir.BuilderMode) (*ir.Program, []*ir.Package, *che
 	prog := ir.NewProgram(c.fset, mode)
 	var pkgs []*ir.Package
 	for _, name := range c.order {
-		if name == "lib" && ps.LibFromTypes {
+		if name == "base" && ps.LibFromTypes && ps.BaseIndirect {
+			continue
+		}
+		if (name == "lib" || name == "base") && ps.LibFromTypes {
 			// like a dependency loaded from export data: no syntax, its
 			// methods are created "from type information (on demand)"
 			pkgs = append(pkgs, prog.CreatePackage(c.pkgs[name], nil, nil, true))
@@ -303,10 +306,16 @@ func execute(c Case, tapes *[][]uint32) batch.Result {
 				cfg.Tape = []uint32{}
 			}
 		}
-		order := s.Order
-		if len(order) != len(pkgs) {
-			order = nil
-			for i := range pkgs {
+		var order []int
+		inOrder := map[int]bool{}
+		for _, i := range s.Order {
+			if i >= 0 && i < len(pkgs) && !inOrder[i] {
+				order = append(order, i)
+				inOrder[i] = true
+			}
+		}
+		for i := range pkgs {
+			if !inOrder[i] {
 				order = append(order, i)
 			}
 		}
@@ -350,7 +359,7 @@ func execute(c Case, tapes *[][]uint32) batch.Result {
 				verifsim.WGWait(&wg)
 			case 4:
 				// concurrent clients asking for method implementations
-				for _, name := range chk.order[1:] {
+				for _, name := range chk.order[2:] {
 					tp := chk.pkgs[name]
 					for _, tn := range []string{"Wrap", "PWrap", "Deep", "IW"} {
 						obj := tp.Scope().Lookup(tn)
@@ -479,7 +488,7 @@ func (engine) Generate(seed uint64, index int, tier string) json.RawMessage {
 	if tier == "thorough" {
 		n = 50
 	}
-	np := len(c.Prog.Users) + 1
+	np := len(c.Prog.Users) + 2
 	for i := 0; i < n; i++ {
 		s := Sched{Seed: r.Next(), Strategy: 1 + r.N(4), Driver: r.N(len(driverNames))}
 		switch verifsim.Strategy(s.Strategy) {
